@@ -8,7 +8,7 @@ import collections
 
 CONT, TERM = 0, 1
 
-EXC_OF_END = {'RAISE_A': 'ExcA', 'RAISE_A2': 'ExcA2', 'RAISE_B': 'ExcB', 'RAISE_O': 'ExcO', 'INVALID': 'InvalidPhaseResultError',
+EXC_OF_END = {'RAISE_A': 'ExcA', 'RAISE_A2': 'ExcA2', 'RAISE_BADSTR': 'ExcBadStr', 'RAISE_B': 'ExcB', 'RAISE_O': 'ExcO', 'INVALID': 'InvalidPhaseResultError',
               'INVALID_FALSE': 'InvalidPhaseResultError', 'INVALID_ZERO': 'InvalidPhaseResultError',
               'INVALID_EMPTY': 'InvalidPhaseResultError'}
 TERMINAL_KINDS = ('STOP', 'TIMEOUT')
@@ -309,6 +309,8 @@ class Model(object):
       kind = 'CONTINUE'
     elif end in EXC_OF_END:
       kind = 'EXC:' + EXC_OF_END[end]
+      if end == 'RAISE_BADSTR':
+        x.unspecified.append('exception that cannot be rendered')
     elif end == 'FAIL_SUBTEST' and st is None:
       kind = 'EXC:InvalidPhaseResultError'
     elif end == 'BLOCK':
